@@ -402,3 +402,24 @@ def site_dominated_by_edge(fg, bk, block, edges_by_body):
             if b.edge_dominates(s, d, blk):
                 return True
     return False
+
+
+def plain_value_origin(fg, bk, operand, fam_owner=None):
+    """How an operand's value is obtained when only moves / borrows / captures are followed:
+    (names of the calls whose result it is, True if some definition on the way computes it
+    with arithmetic or from several values)."""
+    if operand["k"] == "const":
+        return set(), False
+    plain = lambda e: e.kind in ("copy", "ref", "base2field", "field2whole", "upvar", "closarg", "callarg")
+    ok_node = (lambda x: x[0] != "F" and fg.bodies[x[0]].owner == fam_owner) if fam_owner else (lambda x: x[0] != "F")
+    back = fg.backward(fg.operand_nodes(bk, operand), node_ok=ok_node, edge_ok=plain)
+    calls, computed = set(), False
+    for x in back:
+        for e in fg.inn.get(x, ()):
+            if e.kind in ("bin", "un", "cast"):
+                computed = True
+            elif e.kind in ("call", "lcall"):
+                names = (e.info or {}).get("names") if isinstance(e.info, dict) else None
+                if names:
+                    calls.add(names[0])
+    return calls, computed
